@@ -206,6 +206,7 @@ Record world := {
   servers : list server;       (* open server connections; idle ones of a pool in hand-out order *)
   next_srv : server_id;
   validated : list pool_id;    (* pool objects whose [validated] flag is set (shared by all clones) *)
+  waiting : list cid;          (* clients held in pool.wait_paused() at the start of a transaction (client.rs:1099-1100) *)
   paused : list key            (* PAUSEd pools.  The flag is an Arc shared by every clone and handed on to the object a
                                   reload builds for the same key (pool.rs from_config, dae4e52): one flag per key *)
 }.
@@ -232,7 +233,7 @@ Definition is_held (x : server) : bool := match sholder x with Some _ => true | 
 Definition gc (w : world) : world :=
   {| st := st w; objs := objs w; next_pool := next_pool w; clients := clients w;
      servers := filter (fun x => alive (st w) (clients w) (spool x) || is_held x) (servers w);
-     next_srv := next_srv w; validated := validated w; paused := paused w |}.
+     next_srv := next_srv w; validated := validated w; waiting := waiting w; paused := paused w |}.
 
 Definition idle_of (p : pool_id) (x : server) : bool :=
   (spool x =? p) && negb (is_held x).
@@ -265,7 +266,8 @@ Inductive op :=
 | ODisconnect (c : cid)
 | OIdle (c : cid) (ms : nat)        (* the client sends nothing for [ms] inside its open transaction *)
 | OPause (k : key)                  (* admin: PAUSE db,user *)
-| OResume (k : key).                (* admin: RESUME db,user *)
+| OResume (k : key)                 (* admin: RESUME db,user *)
+| OWake (c : cid).                  (* a client held by PAUSE goes on after the notification *)
 
 Inductive obs :=
 | ObReload (r : result)
@@ -283,7 +285,7 @@ Inductive obs :=
 Definition actor (o : op) : option cid :=
   match o with
   | OReload _ | OPause _ | OResume _ => None
-  | OConnect c _ _ | OBegin c | OEnd c | ODisconnect c | OIdle c _ => Some c
+  | OConnect c _ _ | OBegin c | OEnd c | ODisconnect c | OIdle c _ | OWake c => Some c
   end.
 
 Definition has_pool (s : store) (k : key) : bool :=
@@ -291,14 +293,38 @@ Definition has_pool (s : store) (k : key) : bool :=
 
 Definition with_clients (w : world) (cl : list (cid * client)) : world :=
   {| st := st w; objs := objs w; next_pool := next_pool w; clients := cl; servers := servers w; next_srv := next_srv w;
-     validated := validated w; paused := paused w |}.
+     validated := validated w; waiting := waiting w; paused := paused w |}.
+
+(** the part of a transaction start behind the pause gate (client.rs:1102-1215): [pool = self.get_pool().await?], settings
+    refresh, checkout, idle timeout — everything is read NOW *)
+Definition do_begin (w : world) (c : cid) (x : client) : world * obs :=
+  match plookup (cdb x, cuser x) (pools (st w)) with
+  | None => (with_clients w (cl_remove c (clients w)), ObNoPool)
+  | Some (_, p) =>
+      match take_idle p c (servers w) with
+      | Some (s, l') =>
+          ({| st := st w; objs := objs w; next_pool := next_pool w;
+              clients := cl_set c {| cdb := cdb x; cuser := cuser x; cclone := p; cheld := Some s; ctmo := cidle (config (st w)) |} (clients w);
+              servers := l'; next_srv := next_srv w; validated := validated w; waiting := waiting w; paused := paused w |}, ObBegun p s false)
+      | None =>
+          let s := next_srv w in
+          ({| st := st w; objs := objs w; next_pool := next_pool w;
+              clients := cl_set c {| cdb := cdb x; cuser := cuser x; cclone := p; cheld := Some s; ctmo := cidle (config (st w)) |} (clients w);
+              servers := {| sid := s; spool := p; sholder := Some c |} :: servers w;
+              next_srv := S s; validated := validated w; waiting := waiting w; paused := paused w |}, ObBegun p s true)
+      end
+  end.
+
+Definition unwait (w : world) (c : cid) : world :=
+  {| st := st w; objs := objs w; next_pool := next_pool w; clients := clients w; servers := servers w; next_srv := next_srv w;
+     validated := validated w; waiting := filter (fun c' => negb (c' =? c)) (waiting w); paused := paused w |}.
 
 Definition step0 (w : world) (o : op) : world * obs :=
   match o with
   | OReload fo =>
       let '(s', r, n', new) := reload (st w) fo (next_pool w) in
       ({| st := s'; objs := new ++ objs w; next_pool := n'; clients := clients w; servers := servers w;
-          next_srv := next_srv w; validated := validated w;
+          next_srv := next_srv w; validated := validated w; waiting := waiting w;
           (* pool.rs from_config (2ecc068): the pools that are no longer registered are resumed, whatever their flag *)
           paused := match r with ROk true => filter (has_pool s') (paused w) | _ => paused w end |}, ObReload r)
   | OConnect c d u =>
@@ -315,7 +341,7 @@ Definition step0 (w : world) (o : op) : world * obs :=
                    runs pool.validate(): one server connection is opened, its parameters are read, it goes back idle *)
                 ({| st := st w; objs := objs w; next_pool := next_pool w; clients := cl;
                     servers := {| sid := next_srv w; spool := p; sholder := None |} :: servers w;
-                    next_srv := S (next_srv w); validated := p :: validated w; paused := paused w |}, ObConnected p)
+                    next_srv := S (next_srv w); validated := p :: validated w; waiting := waiting w; paused := paused w |}, ObConnected p)
           end
       end
   | OBegin c =>
@@ -325,7 +351,18 @@ Definition step0 (w : world) (o : op) : world * obs :=
           match cheld x with
           | Some _ => (w, ObNop)
           | None =>
-              if existsb (key_eqb (cdb x, cuser x)) (paused w) then (w, ObBlocked)     (* client.rs:1078 pool.wait_paused() *)
+              if existsb (Nat.eqb c) (waiting w) then (w, ObNop) else
+              if existsb (key_eqb (cdb x, cuser x)) (paused w)
+              then
+                (* client.rs:1099-1100: [pool = self.get_pool().await?; pool.wait_paused().await]: the client swaps its clone for the
+                   registered object and parks.  What it runs on is decided when it goes on ([OWake]), not now. *)
+                ({| st := st w; objs := objs w; next_pool := next_pool w;
+                    clients := match plookup (cdb x, cuser x) (pools (st w)) with
+                               | Some (_, p) => cl_set c {| cdb := cdb x; cuser := cuser x; cclone := p; cheld := None; ctmo := ctmo x |} (clients w)
+                               | None => clients w
+                               end;
+                    servers := servers w; next_srv := next_srv w; validated := validated w;
+                    waiting := c :: waiting w; paused := paused w |}, ObBlocked)
               else
               match plookup (cdb x, cuser x) (pools (st w)) with
               | None => (with_clients w (cl_remove c (clients w)), ObNoPool)           (* client.rs:1081, 1686-1707 *)
@@ -334,13 +371,13 @@ Definition step0 (w : world) (o : op) : world * obs :=
                   | Some (s, l') =>
                       ({| st := st w; objs := objs w; next_pool := next_pool w;
                           clients := cl_set c {| cdb := cdb x; cuser := cuser x; cclone := p; cheld := Some s; ctmo := cidle (config (st w)) |} (clients w);
-                          servers := l'; next_srv := next_srv w; validated := validated w; paused := paused w |}, ObBegun p s false)
+                          servers := l'; next_srv := next_srv w; validated := validated w; waiting := waiting w; paused := paused w |}, ObBegun p s false)
                   | None =>
                       let s := next_srv w in
                       ({| st := st w; objs := objs w; next_pool := next_pool w;
                           clients := cl_set c {| cdb := cdb x; cuser := cuser x; cclone := p; cheld := Some s; ctmo := cidle (config (st w)) |} (clients w);
                           servers := {| sid := s; spool := p; sholder := Some c |} :: servers w;
-                          next_srv := S s; validated := validated w; paused := paused w |}, ObBegun p s true)
+                          next_srv := S s; validated := validated w; waiting := waiting w; paused := paused w |}, ObBegun p s true)
                   end
               end
           end
@@ -354,7 +391,7 @@ Definition step0 (w : world) (o : op) : world * obs :=
           | Some _ =>
               ({| st := st w; objs := objs w; next_pool := next_pool w;
                   clients := cl_set c {| cdb := cdb x; cuser := cuser x; cclone := cclone x; cheld := None; ctmo := ctmo x |} (clients w);
-                  servers := release c (servers w); next_srv := next_srv w; validated := validated w; paused := paused w |}, ObEnded)
+                  servers := release c (servers w); next_srv := next_srv w; validated := validated w; waiting := waiting w; paused := paused w |}, ObEnded)
           end
       end
   | ODisconnect c =>
@@ -362,7 +399,7 @@ Definition step0 (w : world) (o : op) : world * obs :=
       | None => (w, ObNop)
       | Some _ =>
           ({| st := st w; objs := objs w; next_pool := next_pool w; clients := cl_remove c (clients w);
-              servers := release c (servers w); next_srv := next_srv w; validated := validated w; paused := paused w |}, ObGone)
+              servers := release c (servers w); next_srv := next_srv w; validated := validated w; waiting := waiting w; paused := paused w |}, ObGone)
       end
   | OIdle c ms =>
       match cl_lookup c (clients w) with
@@ -376,20 +413,28 @@ Definition step0 (w : world) (o : op) : world * obs :=
               if negb (ctmo x =? 0) && (ctmo x <=? ms)
               then ({| st := st w; objs := objs w; next_pool := next_pool w;
                        clients := cl_set c {| cdb := cdb x; cuser := cuser x; cclone := cclone x; cheld := None; ctmo := ctmo x |} (clients w);
-                       servers := release c (servers w); next_srv := next_srv w; validated := validated w; paused := paused w |}, ObTimedOut)
+                       servers := release c (servers w); next_srv := next_srv w; validated := validated w; waiting := waiting w; paused := paused w |}, ObTimedOut)
               else (w, ObIdled)
           end
       end
   | OPause k =>                                                                        (* admin.rs:845-875 *)
       if has_pool (st w) k
       then ({| st := st w; objs := objs w; next_pool := next_pool w; clients := clients w; servers := servers w;
-               next_srv := next_srv w; validated := validated w; paused := k :: paused w |}, ObAdmin true)
+               next_srv := next_srv w; validated := validated w; waiting := waiting w; paused := k :: paused w |}, ObAdmin true)
       else (w, ObAdmin false)
   | OResume k =>
       if has_pool (st w) k
       then ({| st := st w; objs := objs w; next_pool := next_pool w; clients := clients w; servers := servers w;
-               next_srv := next_srv w; validated := validated w; paused := filter (fun k' => negb (key_eqb k' k)) (paused w) |}, ObAdmin true)
+               next_srv := next_srv w; validated := validated w; waiting := waiting w; paused := filter (fun k' => negb (key_eqb k' k)) (paused w) |}, ObAdmin true)
       else (w, ObAdmin false)
+  | OWake c =>
+      match cl_lookup c (clients w) with
+      | None => (w, ObNop)
+      | Some x =>
+          if negb (existsb (Nat.eqb c) (waiting w)) then (w, ObNop)
+          else if existsb (key_eqb (cdb x, cuser x)) (paused w) then (w, ObBlocked)    (* still paused: keeps waiting *)
+          else do_begin (unwait w c) c x
+      end
   end.
 
 Definition step (w : world) (o : op) : world * obs :=
@@ -442,7 +487,7 @@ End WithHash.
 Definition empty_cfg : cfg := {| cgen := 0; cidle := 0; cpools := [] |}.
 Definition empty_world : world :=
   {| st := {| config := empty_cfg; pools := [] |}; objs := []; next_pool := 0; clients := []; servers := []; next_srv := 0;
-     validated := []; paused := [] |}.
+     validated := []; waiting := []; paused := [] |}.
 
 (** -------------------------------------------------------------- printable views for the tie *)
 
